@@ -1029,7 +1029,7 @@ def main(run):
     grid = [dict(base=b, nobj=n, valid=v, proto=p, cycle=c)
             for b in range(11 if run.thorough else 8) for p in range(6) for n in (1, 2, 3) for v in (True, False)
             for c in ((False, True) if run.thorough else ((b + p + n + v) % 2 == 0,))]
-    nscen = run.scale(100, 1600)
+    nscen = run.scale(100, 4000)
     jobs = [(i, None) for i in range(nscen)] + [(i, g) for i, g in enumerate(grid)]
     for idx, g in jobs:
         try:
@@ -1274,7 +1274,7 @@ def main(run):
         cases.append(case)
         run.note_case(case, len(ops) > 3)
 
-    for idx in range(run.scale(150, 1500)):
+    for idx in range(run.scale(150, 3000)):
         try:
             tool_scenario(idx)
         except Exception as e:  # noqa
